@@ -6,6 +6,7 @@ mod table;
 mod codec;
 mod ext;
 mod gen;
+mod builder;
 
 fn main() {
     // panics inside the code under test are data (recorded in the output), not noise on stderr
@@ -21,7 +22,9 @@ fn main() {
         "table" => table::main_table(&args[2..]),
         "codec" => codec::main_codec(&args[2..]),
         "gen" => gen::main_gen(&args[2..]),
+        "genpaths" => gen::main_genpaths(&args[2..]),
         "attrs" => codec::main_attrs(&args[2..]),
+        "builder" => builder::main_builder(&args[2..]),
         "xor" => codec::main_xor(&args[2..]),
         "compr" => {
             use std::io::Write;
